@@ -140,6 +140,7 @@ structure St where
   n : Nat := 0
   res : Int := 0
   log : List Item := []       -- newest first
+  client : Option Int := none -- hdr.error of the response the client reads (first response)
   deriving Repr
 
 /-- one call: (new state, errno of the failure if any) -/
@@ -163,7 +164,8 @@ def exec (env : Env) : Prog → St → St
   | .ign o k, s => exec env k (doCall env o s).1
   | .note e k, s => exec env k { s with log := .ev e :: s.log }
   | .setRes r k, s => exec env k { s with res := r }
-  | .respond k, s => exec env k { s with log := .respond s.res :: s.log }
+  | .respond k, s =>
+    exec env k { s with log := .respond s.res :: s.log, client := s.client.orElse (fun _ => some s.res) }
 
 /-! ## The program of one connection -/
 
@@ -288,6 +290,24 @@ def connProg (i : Input) : Prog :=
 
 def run (i : Input) : St := exec i.env (connProg i) {}
 
+/-! ## Classes of the known findings (decidable; `qb_admission --classify`) -/
+
+/-- KF-C05-narrow-mode-window (D27): the mode chosen by the accept callback does not contain 0600 -/
+def Input.narrowMode (i : Input) : Bool := (0o600 &&& i.authOf.mode) != 0o600
+
+/-- KF-C05-dir-chmod-failure-leak: the failing call is chmod(dir, 0770), the 2nd call of the connection -/
+def Input.failAt2 (i : Input) : Bool := i.failAt == 2
+
+def Input.classes (i : Input) : List String :=
+  (if i.narrowMode then ["narrowMode"] else []) ++ (if i.failAt2 then ["failAt2"] else [])
+
+/-- number of file-system calls of a set-up in which nothing fails (handle_new_connection 3, then
+    shm: chown dir + 3 rings × 10; socket: [chown dir] + control file 3 + chown + chmod) -/
+def Input.setupCalls (i : Input) : Nat :=
+  match i.transport with
+  | .shm => 34
+  | .sock => if i.usDirChown then 9 else 8
+
 /-! ## Observations -/
 
 /-- the ledgers after every call, oldest first ("every moment": the ledger changes at calls only) -/
@@ -298,8 +318,7 @@ def St.events (s : St) : List Ev :=
   s.log.reverse.filterMap fun | .ev e => some e | _ => none
 
 /-- hdr.error of the response = what qb_ipcc_connect reports (errno = -error) -/
-def St.clientRes (s : St) : Option Int :=
-  s.log.findSome? fun | .respond r => some r | _ => none
+def St.clientRes (s : St) : Option Int := s.client
 
 /-- ledger at the moment the connection became ESTABLISHED -/
 def ledAtEstablished : List Item → Option Ledger
